@@ -453,6 +453,7 @@ class PackageGenerator:
                   owner_q: str | None = None, n_methods: int | None = None, allow_nested: bool = True) -> str:
         r = self.r
         cq = f"{owner_q or mod.qname}.{name}"
+        self.probes.setdefault("classes", []).append(cq)
         bases = bases or []
         head = f"{indent}class {name}({', '.join(bases)}):" if bases else f"{indent}class {name}:"
         lines = [head]
@@ -706,6 +707,10 @@ class PackageGenerator:
             args_sig = ", *args: int" if self.f("VARARGS") else ""
             tok = self.tokens.new("F", f"{mb.qname}._Base.shared")
             docline = f'        """Shared {tok}."""\n' if self.f("DOCS") else ""
+            override = self.f("DOCS") and r.random() < 0.5
+            tok_o = self.tokens.new("F", f"{mb.qname}.PubOne.shared") if override else None
+            for cn in ("_Base", "PubOne", "PubTwo", "_Root"):
+                self.probes.setdefault("classes", []).append(f"{mb.qname}.{cn}")
             two_level = r.random() < 0.6
             if two_level:
                 # a private base of the private base: its public members surface in the public subclasses as well
@@ -721,16 +726,20 @@ class PackageGenerator:
                 "    def _not_shared(self) -> None:\n"
                 "        pass\n",
             )
-            mb.body.append("class PubOne(_Base):\n    def own_one(self) -> int:\n        ...\n")
+            if override:
+                mb.body.append(f'class PubOne(_Base):\n    def own_one(self) -> int:\n        ...\n\n    def shared(self, mode: int = 0) -> int:\n        """Overridden {tok_o}."""\n        ...\n')
+            else:
+                mb.body.append("class PubOne(_Base):\n    def own_one(self) -> int:\n        ...\n")
             mb.body.append("class PubTwo(_Base):\n    pass\n")
             mb.all_classes += ["_Base", "PubOne", "PubTwo"]
             mb.public_classes += ["PubOne", "PubTwo"]
-            group = [f"{mb.qname}.PubOne", f"{mb.qname}.PubTwo"]
+            group = [f"{mb.qname}.PubTwo"] if override else [f"{mb.qname}.PubOne", f"{mb.qname}.PubTwo"]
             if r.random() < 0.6:
                 mo = self.new_module(top, "inherit_other")
                 mo.add_import(f"from {mb.qname} import _Base")
                 mo.body.append("class PubThree(_Base):\n    def own_three(self, v: int = 3) -> None:\n        pass\n")
                 mo.all_classes.append("PubThree")
+                self.probes.setdefault("classes", []).append(f"{mo.qname}.PubThree")
                 group.append(f"{mo.qname}.PubThree")
             self.probes["inherit_groups"].append({"base": f"{mb.qname}._Base", "subs": group, "members": ["shared", "other"] + (["rooted"] if two_level else [])})
 
